@@ -69,7 +69,7 @@ PROPS_LATE = {
     "C18": dict(units=META_CONE + ["find_checker", "_unpack_pre_snap_posts", "decorate_with_checker", "decorate_with_checker/wrapper[sync]",
                                    "decorate_with_checker/wrapper[async]", "_assert_preconditions", "_assert_postconditions", "_capture_old"],
                 replay="hist", hints=["chain", "two bases", "invariants along"]),
-    "C14": dict(units=WRAPPERS6 + ["decorate_with_checker", "find_checker", "require.__call__", "ensure.__call__", "snapshot.__call__", "invariant.__call__",
+    "C14": dict(units=CHECKER_CONE + INV_CONE + ["decorate_with_checker", "find_checker", "require.__call__", "ensure.__call__", "snapshot.__call__", "invariant.__call__",
                                    "resolve_kwdefaults"], replay="defn", hints=["foreign", "single_checker", "disabled"]),
     "C09": dict(units=CHECKER_CONE + ["_assert_invariant", "Contract.__init__", "Invariant.__init__", "require.__init__", "ensure.__init__",
                                       "invariant.__init__"], replay="call", hints=["falsy_error", "error_argument"]),
